@@ -19,11 +19,13 @@ def setup():
 
 
 def dispatch(pid, tier):
-    from . import layout, graph, vft, inherit, enums, impl
+    from . import layout, graph, vft, inherit, enums, impl, scope
     table = {
         "C04": lambda: vft.run_vft("C04", tier),
         "C16": lambda: vft.run_c16(tier),
         "C05": lambda: impl.run_impl("C05", tier),
+        "C11": lambda: scope.run_scope("C11", tier),
+        "C19": lambda: scope.run_scope("C19", tier),
         "C15": lambda: impl.run_impl("C15", tier),
         "C06": lambda: inherit.run_inherit("C06", tier),
         "C07": lambda: inherit.run_inherit("C07", tier),
